@@ -26,6 +26,8 @@ requires:
   [C16 idx_lt_max] log_id is Some ==> Self::spec_log_index(log_id.unwrap()) < u64::MAX
 ensures:
   [C01 next] r == (match log_id { Some(l) => (Self::spec_log_index(l) + 1) as u64, None => 0u64 })
+known D6:
+  drop: idx_lt_max
 //@end
 }
 
